@@ -19,6 +19,9 @@ def special_grammars(ctx):
     add("mix200", HDR + "S <- R0 !.\n" + "".join("R%d <- 'a' R%d? %s\n" % (i, i + 1, "{ p.N++ }" if i % 5 < 3 else "") for i in range(200)) + "R200 <- <'b'> Undef1? Undef2?\n")
     add("imports", "package parser\n\nimport \"fmt\"\nimport z \"os\"\nimport (\n\tb \"bytes\"\n\t\"strings\"\n\t\"math\"\n)\nimport \"io\"\n\ntype Parser Peg {\n T []string\n N int\n}\n"
         "S <- <'a'> { _ = fmt.Sprint(z.Args, b.MinRead, strings.ToLower(text), math.Pi, io.EOF) } !.\n")
+    # aliased imports whose path is a prefix of another imported path (gofmt sorts by path, then alias)
+    add("imports2", "package parser\n\nimport m \"math\"\nimport \"math/rand\"\nimport (\n\txos \"os\"\n\t\"os/exec\"\n\ts2 \"strings\"\n\t\"strconv\"\n)\n\ntype Parser Peg {\n T []string\n N int\n}\n"
+        "S <- 'a' { _ = m.Pi; _ = rand.Int(); _ = xos.Args; _ = exec.ErrNotFound; _ = s2.ToLower(strconv.Itoa(1)) } !.\n")
     add("header", "# a comment with */ and \"quotes\" and a tab\there\n// second style {braces}\n\n\n# third\n" + HDR + "S <- 'a' # trailing comment\n   'b' // another\n !.\n")
     add("chars", HDR + "S <- '\\a' '\\b' '\\e' '\\f' '\\n' '\\r' '\\t' '\\v' '\\'' '\\\"' '\\[' '\\]' '\\-' '\\\\' '\\0' '\\177' '\\0x7f' '\\0xA0'\n"
         "     'é' '日本' '\U0001F600' '\\0x10FFFF' '\\0xFFFD' '\\0xD800' \"\\0x1F600K\"\n     [\\a-\\f] [^\\n\\r] [\\0x100-\\0x17F\\]\\[\\-] [[é-ï]] [\"'] ['] !.\n")
@@ -102,7 +105,7 @@ def check(ctx):
                         sexp, ptx, names, _ = P.linked_to_model(nodes)
                         # under -noast the user's action text is pasted into the rule functions: streams whose actions
                         # contain their own blocks, declarations or nothing at all are compared in AST mode only
-                        usercode = g["id"] in ("locals", "braces", "predcmt", "predlinecmt", "noterm", "imports") and B.OPTSETS[o]["noast"]
+                        usercode = g["id"] in ("locals", "braces", "predcmt", "predlinecmt", "noterm", "imports", "imports2") and B.OPTSETS[o]["noast"]
                         if "nilkey" not in sexp and not usercode and not (g["id"].startswith("many") and o not in ("d", "nis")):
                             from .. import emitskel
                             sk = emitskel.skeletons(open(pth, encoding="utf-8", errors="replace").read())
